@@ -14,6 +14,7 @@ import Tranp.Lemmas.BlockLast
 import Tranp.Lemmas.BlockMulti
 import Tranp.Lemmas.BlockView
 import Tranp.Lemmas.BlockDecoTotal
+import Tranp.Lemmas.BlockDict
 import Tranp.Generated.BlockCallSites
 
 namespace Tranp.C18
@@ -655,6 +656,14 @@ theorem quoted_literal (q : Char) (body : Str) :
     isQuotedLiteral (q :: (body ++ [q])) [q] = .ok (escapedBody q q body) :=
   isQuotedLiteral_quoted q body
 
+/-- … and on EVERY text: `is_quoted_literal(s, q)` is `quotedSpec q s` — the empty text is no literal, the quote character
+    alone is one, a longer text is one exactly when it starts and ends with the quote and every quote in between is escaped. -/
+theorem quoted_literal_spec (q : Char) (s : Str) : isQuotedLiteral s [q] = .ok (quotedSpec q s) :=
+  isQuotedLiteral_spec q s
+
+example : quotedSpec '"' ['"'] = true ∧ quotedSpec '"' [] = false ∧ quotedSpec '"' ['"', 'a'] = false ∧
+    quotedSpec '\'' ['\'', '\\', '\'', '\''] = true := by decide
+
 /-- the simple strings of the fragment grammar (no own quote inside) are quoted literals -/
 theorem quoted_simple_string (q : QK) (body : Str) (hb : ∀ c ∈ body, c ≠ q.ch) :
     isQuotedLiteral (Frag.str q body .nil).render [q.ch] = .ok true := by
@@ -716,5 +725,56 @@ example :
         = .ok (['c', 'o', 'n', 's', 't', ' ', 'm', '<', 'a', ',', ' ', 'b', '>', '&'], ['n'], ['{', '1', '}']) ∧
       varTypeOrigin ['c', 'o', 'n', 's', 't', ' ', 'm', '<', 'a', ',', ' ', 'b', '>', '&'] = .ok ['m'] := by
   decide
+
+/-! ## `parse` / `parse_pair` with delimiters on dict-like texts -/
+
+/-- Dict-like texts `name{item, item, …}` (structure `Item`: every item is a blank-free token — identifier characters, strings,
+    groups of the OTHER bracket kinds with anything inside, also directly behind each other — or a possibly named nested block
+    `inner{…}`; items are separated by one delimiter character of `D` and any number of blanks; unbounded nesting):
+    `parse(text, brackets, D)` builds exactly the entry tree of the items — an `Element` per token from its first to behind its
+    last character, a `Block` per nested block with its items one level deeper. -/
+theorem parse_dict_spec (k : BK) (D : Str) (hD : DelimOK D) (name : Frag) (items : List Item) (hn : TokOK k D name)
+    (hw : Item.WFList k D true items) :
+    parse (name.render ++ k.open :: (Item.renderList k items ++ [k.close])) [k.open, k.close] D
+      = .ok (Item.entry k 0 0 (Item.block [] name items)) :=
+  parse_dict k D hD name items hn hw
+
+/-- … and `parse_pair` returns the consecutive pairs of the item texts, then of the item texts of the nested blocks
+    (`Entry.unders` is two levels deep, the entries are sorted by depth, a pair needs equal depth: `pairTagged`). -/
+theorem pair_spec (k : BK) (D : Str) (hD : DelimOK D) (name : Frag) (items : List Item) (hn : TokOK k D name)
+    (hw : Item.WFList k D true items) :
+    parsePair (name.render ++ k.open :: (Item.renderList k items ++ [k.close])) [k.open, k.close] D
+      = .ok (pairTagged (tagged k items)) :=
+  parsePair_dict k D hD name items hn hw
+
+/-- With an even number of items (a dict): the (key, value) texts of the dict followed by the (key, value) texts of the
+    nested dicts. -/
+theorem pair_spec_even (k : BK) (D : Str) (hD : DelimOK D) (name : Frag) (items : List Item) (hn : TokOK k D name)
+    (hw : Item.WFList k D true items) (he : items.length % 2 = 0) :
+    parsePair (name.render ++ k.open :: (Item.renderList k items ++ [k.close])) [k.open, k.close] D
+      = .ok (pairsOf (items.map (Item.text k)) ++ pairsOf (items.flatMap fun it => it.subItems.map (Item.text k))) :=
+  parsePair_dict_even k D hD name items hn hw he
+
+/-- non-vacuity: `{a: f(1)[2, 3], c: x{d: "e,"}}` with `{}` and the delimiters `:` `,` -/
+example :
+    let ta : Frag := .atom 'a' .nil
+    let tf : Frag := .atom 'f' (.group .par (.atom '1' .nil) (.group .sq (.atom '2' (.atom ',' (.atom ' ' (.atom '3' .nil)))) .nil))
+    let inner : List Item := [.elem [] (.atom 'd' .nil), .elem [':', ' '] (.str .dq ['e', ','] .nil)]
+    let items : List Item := [.elem [] ta, .elem [':', ' '] tf, .elem [',', ' '] (.atom 'c' .nil), .block [':', ' '] (.atom 'x' .nil) inner]
+    DelimOK [':', ','] ∧ TokOK .cur [':', ','] .nil ∧ Item.WFList .cur [':', ','] true items ∧ items.length % 2 = 0 ∧
+      parsePair (Frag.nil.render ++ BK.cur.open :: (Item.renderList .cur items ++ [BK.cur.close])) ['{', '}'] [':', ',']
+        = .ok [(['a'], ['f', '(', '1', ')', '[', '2', ',', ' ', '3', ']']), (['c'], ['x', '{', 'd', ':', ' ', '"', 'e', ',', '"', '}']),
+            (['d'], ['"', 'e', ',', '"'])] := by
+  refine ⟨?_, ?_, ?_, ?_, ?_⟩
+  · intro d hd
+    simp only [has, List.contains_cons, List.contains_nil, Bool.or_false, Bool.or_eq_true, beq_iff_eq] at hd
+    rcases hd with hd | hd <;> subst hd <;> decide
+  · exact ⟨by decide, by decide, by decide⟩
+  · refine ⟨⟨rfl, ⟨by decide, by decide, by decide⟩, by decide⟩, ⟨⟨':', 1, by decide, rfl⟩, ⟨by decide, by decide, by decide⟩, by decide⟩,
+      ⟨⟨',', 1, by decide, rfl⟩, ⟨by decide, by decide, by decide⟩, by decide⟩,
+      ⟨⟨':', 1, by decide, rfl⟩, ⟨by decide, by decide, by decide⟩,
+        ⟨⟨rfl, ⟨by decide, by decide, by decide⟩, by decide⟩, ⟨⟨':', 1, by decide, rfl⟩, ⟨by decide, by decide, by decide⟩, by decide⟩, trivial⟩⟩, trivial⟩
+  · decide
+  · decide
 
 end Tranp.C18
